@@ -333,10 +333,8 @@ func runGenerators(c *hlib.Ctx) {
 				rs.Add(&model3d.Rect{MinVal: model3d.XYZ(x, y, z),
 					MaxVal: model3d.XYZ(x+1+float64(c.Rng.Intn(2)), y+1+float64(c.Rng.Intn(2)), z+1+float64(c.Rng.Intn(2)))})
 			}
-			if c.Rng.Intn(2) == 0 {
-				return rs.Mesh()
-			}
-			return rs.ExactMesh()
+			// ExactMesh() is documented as possibly non-manifold (touching boxes); only Mesh() claims it.
+			return rs.Mesh()
 		})
 		soup3(c, "heightmap", func() *model3d.Mesh {
 			hm := toolbox3d.NewHeightMap(model2d.XY(-2, -2), model2d.XY(2, 2), 10+c.Rng.Intn(30))
